@@ -31,7 +31,7 @@ func C14(c *run.Ctx) int {
 		seed := run.CaseSeed(c.Seed, "override", i)
 		id := fmt.Sprintf("prog-%d", i)
 		cfg := wgen.Config{Off: wgen.SafeOff("fn.select", "postfix-on-compound", "inline-const-precedence", "fn.dot.int", "fn.round", "fn.sign", "fn.firstLeadingBit", "fn.firstTrailingBit",
-			"swizzle.on-constructor", "ptr.dynamic-element", "div.runtime-divisor", "op.%.i32", "fn.select.vec-cond", "attr.align", "uniform.matCx2", "fn.atomicSub",
+			"swizzle.on-constructor", "ptr.dynamic-element", "ptr.struct-vec3-member", "div.runtime-divisor", "op.%.i32", "fn.select.vec-cond", "attr.align", "uniform.matCx2", "fn.atomicSub",
 			"stmt.continue-in-switch", "type.array-of-array", "private.array", "fn.extractBits", "fn.insertBits", "decl.reorder", "type.matCx2", "read.struct-from-buffer", "fn.asinh", "fn.acosh", "fn.atanh"), Overrides: true}
 		prog := cases.Generate(seed, cfg)
 		o := c14Eval(c, id, prog, seed, nMaps)
